@@ -278,6 +278,14 @@ def engine_a(prop, tier, seed):
             scov, violation = simple_sub_run(prop, tier, seed, t0, sub_engine)
             io_cov.update(scov)
             continue
+        if sub_engine == "freestanding":
+            # the same semantics where no test build can go: crate without std, no allocator, panic = "abort";
+            # a seeded model-based self-check (values and destructor counts) inside that program
+            import engines
+            fcov = engines.freestanding_run(prop, tier, seed)
+            fcov.pop("_extra_evaluations", None)
+            io_cov["freestanding_no_std_panic_abort_steps"] = sum(fcov["freestanding_no_allocator_program"]["model_checked_steps"].values())
+            continue
         if sub_engine == "own":
             # the leak-safety argument needs the drain to be the only handle on the detached elements: compile-time
             # witnesses that Drain (and IterMut) cannot be duplicated
@@ -334,7 +342,7 @@ def engine_a(prop, tier, seed):
     sys.exit(0)
 
 
-SUB_ENGINES = {"C01": ["io", "huge"], "C02": ["zst", "zfull", "huge"], "C03": ["zst"], "C04": ["io"], "C07": ["huge"], "C09": ["own"], "C10": ["zst", "own"], "C11": ["io", "big"], "C12": ["big"], "C20": ["reloc"]}
+SUB_ENGINES = {"C01": ["io", "huge", "freestanding"], "C02": ["zst", "zfull", "huge", "freestanding"], "C03": ["zst", "freestanding"], "C04": ["io"], "C07": ["huge", "zst"], "C09": ["own"], "C10": ["zst", "own"], "C11": ["io", "big"], "C12": ["big"], "C20": ["reloc"]}
 
 
 SIMPLE_LABEL = {"huge": "byte_buffers_at_capacities_around_2^32_cases_", "zfull": "full_zero_sized_buffers_at_extreme_capacities_cases_",
